@@ -36,7 +36,7 @@ type progSet struct {
 	Pt        ptIn              `json:"pt"`
 	Fuel      int               `json:"fuel"`
 	MapOrders bool              `json:"maporders"`
-	Tag       string            `json:"tag"` // free text: family / what it exercises
+	Tag       string            `json:"tag"`     // free text: family / what it exercises
 	Without   []string          `json:"without"` // functions removed from the registered table (C08)
 }
 
@@ -308,6 +308,22 @@ func v2Table(o *runObs) map[string]*runtimev2.Fn {
 				if err != nil {
 					return err
 				}
+				vv, t := ast.DectDataType(v)
+				ctx.Regs.ReturnAppend(runtimev2.V{V: vv, T: t})
+				return nil
+			},
+		},
+		// pv(x): logs its argument like probe and returns it (evaluation-order observer, as on v1)
+		"pv": {
+			CallCheck: func(ctx *runtimev2.Task, e *ast.CallExpr) *errchain.PlError {
+				return runtimev2.CheckPassParam(ctx, e, oneParam)
+			},
+			Call: func(ctx *runtimev2.Task, e *ast.CallExpr) *errchain.PlError {
+				v, err := runtimev2.GetParam(ctx, e, oneParam, 0)
+				if err != nil {
+					return err
+				}
+				o.log = append(o.log, effect{Ev: "probe", Vals: []any{snap(v, 8)}})
 				vv, t := ast.DectDataType(v)
 				ctx.Regs.ReturnAppend(runtimev2.V{V: vv, T: t})
 				return nil
